@@ -306,6 +306,11 @@ func c19ExcludeCase(r *vReport, c *c19Exclude, lint func(string) vLintResult) {
 	}
 	got := ""
 	for _, d := range vDiags(res.Errs) {
+		if d.Kind == "syntax-check" && strings.Contains(d.Msg, "could not parse as YAML") {
+			// the generator, not actionlint, is wrong: nothing after the parser ran
+			r.HarnessError("generated workflow is not valid YAML: %s\n%s", d.Msg, src)
+			return
+		}
 		if d.Kind != "matrix" {
 			continue
 		}
